@@ -59,6 +59,8 @@ OPERANDS = ['0', '1', '2', '3', '7', '10', 'True', 'False', '0.0', '1.0', '2.0',
 OPS = ['+', '-', '*', '%', '//', '<<', '>>', '|', '&', '^', '/', '**', '@']
 NESTED = ['(1+2)*(1.0+2)', '(2*3)-(2.0*3)', '1+2+3.0', '2**3+1', '-1+2', '(1<<2)+(1.0<<2)', '[1<<2, 1.0<<2]', '1+2 if 1.0+2 else True+2', '(0*1.0)+(0*1)', '1e308*10+1', '(1-2)*3', '(1-2)-(1.0-2)',
           '10*10*10*10', '1000*1000+0.5', '(True+True)*(1+1)', '1j*1j+1', '(5%3)+(5.0%3)', '7//2+7.0//2', '(1|2)&3', '3-3.0', '0.5+0.5', '(1-4)**2', '(2-5)**2.0', '1<<14', '1<<13', '5*20', '(1-3).real', '(0-1)*0.0', '(1e308*10)-(1e308*10)', '(1e308*10)*0', '2-(3-5)',
+          # results beyond the interpreter's int-to-str digit limit (4300 digits by default since 3.11): not shorter, left as they are - and no error
+          '1<<16384', '3*(1<<16384)', '(1<<16384)-1', '10**5000', '-(10**4400)', '[1<<15000, 2]', '(1<<20000)*0.5 if a else 1<<20000',
           '1--(1-2)', '[1<<17]', '(1<<17,)', '{0:3<<16}', '[7, 8][1<<17:]', '(1<<17).real', '{1<<17}', '[1<<13, 1<<17, 1<<18]', '-(1<<17)', 'not 1<<17', '5 if 1<<17 else 0', '[a, 1<<17]', '(a, 1<<18)',
           '2.0*1' + '0' * 400, '1' + '0' * 400 + '-0.5', '1e308*1' + '0' * 400, '(1<<2000)*1.5', '7.0//(1' + '0' * 400 + ')',
           '1j-3j', '10000j-30000j', '(1j-3j)*2', '1j*(0-1)', '[1j-3.5j][0]', '(0-1)*0j', '(1+1)/(2+2)', '(1+1.0)/(2+2)', '7%(2-2)', '1<<(1-2)', "'a'*3", "'a'+'b'", "b'a'*2", "'%d'%1", "'a'*(1+2)", '(1+2)*"ab"',
